@@ -39,6 +39,8 @@ func checkC08(c *Ctx) {
 	checkForwardAuthTable(c, "C08.R3")
 	checkBasicAuth(c, "C08.R4")
 	checkAuthWiring(c, "C08.R5")
+	c.Rule("C08.R6", "an installed HMAC authenticator is a configured one: installed only for routes declaring secrets; the static list given to the constructor and the version list that decides the selector are the plain accumulators filled from the compiled route (nothing filters them in between); every collecting loop adds an element per entry or fails the build")
+	checkInstalledHMACConfigured(c, "C08.R6")
 }
 
 func checkIngressAuthOrder(c *Ctx, rule string) {
